@@ -220,21 +220,42 @@ E2E_PARAMS = [['-d', '650'], ['-d', '500'], ['-d', '699'], ['-d', '650', '-p', '
 MIRROR_ID = 1000
 
 
-def gen_lattice_dataset(rng, nref=2, nlab=200, nq=20):
+def gen_lattice_dataset(rng, nref=2, nlab=200, nq=20, invdup=False):
     """references with labels on multiples of 1400; queries cut from them with lattice noise; every query also as its mirror image
-    (id + 1000). Molecule coordinates may carry an arbitrary offset: COMA trims queries, only differences matter."""
+    (id + 1000). Molecule coordinates may carry an arbitrary offset: COMA trims queries, only differences matter.
+    invdup: the first reference additionally carries INVERTED duplications of some of its windows, and a few queries are exact copies of
+    such a window: they align equally well on '+' at one place and on '-' at the other (an exact confidence tie between strands), so that
+    the choice among equally good candidates must itself be mirror-symmetric."""
     refs = []
-    for rid in sorted(rng.sample(range(1, 30), nref)):
+    dup_windows = []
+    for k, rid in enumerate(sorted(rng.sample(range(1, 30), nref))):
         pos = [STEP * rng.choice([1, 3, 10])]
         for _ in range(nlab - 1):
             pos.append(pos[-1] + STEP * rng.choice([2, 3, 4, 5, 6, 7, 8, 9, 10, 12, 14]))
+        if invdup and k == 0:
+            for _ in range(3):
+                n = rng.randint(12, 18); a = rng.randint(5, len(pos) - n - 60)
+                gaps = [pos[a + i + 1] - pos[a + i] for i in range(n - 1)]
+                b = rng.randint(a + n + 20, len(pos) - n - 5)
+                # overwrite the stretch starting at label b with the window's gaps in reverse order, then shift the rest
+                old_end = pos[b + n - 1]
+                for i, g in enumerate(reversed(gaps)):
+                    pos[b + i + 1] = pos[b + i] + g
+                delta = pos[b + n - 1] - old_end
+                for i in range(b + n, len(pos)):
+                    pos[i] += delta
+                dup_windows.append((a, n))
         refs.append((rid, float(pos[-1] + STEP * 5), [float(p) for p in pos]))
     qs = []; truth = {}; qid = rng.randint(1, 300)
     for _ in range(nq):
         rid, rl, rp = rng.choice(refs)
         a = rng.randint(0, len(rp) - 45); n = rng.randint(8, 40)
-        w = rp[a:a + n]
         kind = rng.choice(['exact', 'noisy', 'noisy', 'indel', 'indel', 'noisy-indel'])
+        if dup_windows and rng.random() < 0.5:
+            rid, rl, rp = refs[0]
+            a, n = rng.choice(dup_windows)
+            kind = 'exact-invdup'
+        w = rp[a:a + n]
         q = [p - w[0] for p in w]
         if 'noisy' in kind:
             q = [p for p in q if rng.random() > 0.12]
@@ -314,11 +335,14 @@ class E2EMirror(Stream):
     def gen(self, rng, tier):
         base = seeded_rng(getattr(self, 'seed', 0), 'C11-e2e')
         n = self.quick_n if tier == 'quick' else self.thorough_n
-        return [dict(ds_seed=base.randint(1, 10 ** 9), nq=12 if tier == 'quick' else 20, extra=E2E_PARAMS[k % len(E2E_PARAMS)]) for k in range(n)]
+        cases = [dict(ds_seed=base.randint(1, 10 ** 9), nq=12 if tier == 'quick' else 20, extra=E2E_PARAMS[k % len(E2E_PARAMS)]) for k in range(n)]
+        # inverted duplications in the reference: exact confidence ties between the two strands
+        cases += [dict(ds_seed=base.randint(1, 10 ** 9), nq=8, extra=[], invdup=True) for k in range(2 if tier == 'quick' else 8)]
+        return cases
 
     def impl(self, case):
-        ds = gen_lattice_dataset(random.Random(case['ds_seed']), nq=case['nq'])
-        e2e.materialise(ds, 'c11_%d_%d' % (case['ds_seed'], case['nq']))
+        ds = gen_lattice_dataset(random.Random(case['ds_seed']), nq=case['nq'], invdup=bool(case.get('invdup')))
+        e2e.materialise(ds, 'c11%s_%d_%d' % ('i' if case.get('invdup') else '', case['ds_seed'], case['nq']))
         r = e2e.run_coma(os.path.join(ds['dir'], 'r.cmap'), os.path.join(ds['dir'], 'q.cmap'), ['-oM', 'separate'] + list(case['extra']),
                          cpus=1, capture=True)
         out = dict(rc=r.rc, stderr=r.stderr[-400:] if r.rc else '', pairs=[], compared=0, both_absent=0)
